@@ -373,6 +373,61 @@ def pyppmd_decoder_crashes_alone(chain, stream, block, chunk) -> bool:
     return p.returncode < 0 and -p.returncode in (signal.SIGSEGV, signal.SIGABRT, signal.SIGBUS)
 
 
+_PPMD_REPLAY = r"""
+import gc, json, sys, pyppmd
+ops = json.load(open(sys.argv[1]))
+errs = [0]
+def run():
+    objs = {}
+    for op in ops:
+        if op[0] == "new":
+            objs[op[1]] = pyppmd.Ppmd7Decoder(op[2], op[3])
+        elif op[0] == "dec" and op[1] in objs:
+            try:
+                objs[op[1]].decode(bytes.fromhex(op[2]), op[3])
+            except SystemError:
+                errs[0] += 1
+            except Exception:
+                pass
+        elif op[0] == "del":
+            objs.pop(op[1], None)
+for i in range(5):
+    run()
+gc.collect()
+before = {id(o) for o in gc.get_objects()}
+errs[0] = 0
+for i in range(10):
+    run()
+gc.collect()
+lost = [o for o in gc.get_objects() if id(o) not in before and type(o) is list and o and all(type(x) is bytes for x in o) and len(gc.get_referrers(o)) <= 1]
+print("RESULT", len(lost), sum(len(x) for l in lost for x in l), errs[0])
+"""
+
+
+def pyppmd_alone_leaks_on_failed_decode(feed):
+    """feed: the operations recorded at pyppmd's boundary ([new, id, order, mem] / [dec, id, hex, max_length] / [del, id]).
+    Replays them against pyppmd alone in a fresh process, 5 + 10 rounds. -> (orphaned lists, their bytes, SystemErrors) of the last
+    10 rounds when decode() failed with SystemError and left lists of bytes behind that nothing refers to; None otherwise."""
+    import json
+    import subprocess
+    import sys
+    import tempfile
+
+    with tempfile.NamedTemporaryFile("w", suffix=".json") as f:
+        json.dump(feed, f)
+        f.flush()
+        try:
+            p = subprocess.run([sys.executable, "-c", _PPMD_REPLAY, f.name], capture_output=True, timeout=300)
+        except subprocess.TimeoutExpired:
+            return None
+    for line in p.stdout.decode("utf-8", "replace").splitlines():
+        if line.startswith("RESULT "):
+            n, b, e = (int(x) for x in line.split()[1:4])
+            if n >= 5 and b > 0 and e > 0:
+                return (n, b, e)
+    return None
+
+
 def inflate64_faulty(chain, pieces) -> bool:
     """True when the third-party Deflate64 codec (inflate64), driven directly and alone (through pybcj when a branch
     filter is in front), does not give back what it was fed when it is fed these very pieces one deflate() call each.
